@@ -129,7 +129,7 @@ func (e *Env) yamlSpaces(thorough bool) []*Space {
 		"  - handler: allow", "  - handler: deny", "  - handler: denyall", "  - handler: allowall", "  - handler: query_ignore", "  - handler: bogus", "  - ~",
 		"    queries:", "      - select 1", `      - "sel'ect"`, "    tables:", "      - t", "    patterns:",
 		`      - "%%SELECT%%"`, "      - select %%COLUMN%% from t %%WHERE%%", `      - "%%VALUE"`, "      - ~", "a: &a [*a, *a]", "{")}
-	l := 4
+	l := 3
 	if thorough {
 		l = 5
 	}
